@@ -144,6 +144,9 @@ Pre(s, op, a) ==
     [] op = "set_flow" -> a.x \in Names /\ a.p \in Range(t[a.x].ph) /\ a.c \in PkgChems[t[a.x].pkg] /\ a.v >= 0
     [] op = "set_T" -> a.x \in Names
     [] op = "set_P" -> a.x \in Names
+    \* a chemical, a property package (with aliases and chemical groups), a reaction or a reaction set is pickled and loaded: the driver
+    \* compares the observable state of the two objects (a.kind names the object)
+    [] op = "pickle_obj" -> TRUE
     \* a vapour-liquid calculation at (T, P) on a multi-phase stream through its solver object, the phase flows then written back as
     \* they were: the stream (and whoever shares its thermal condition) is at (T, P), nothing else changed
     [] op = "flash_TP" -> a.x \in Names /\ t[a.x].k = "m" /\ {"g", "l"} \subseteq Range(t[a.x].ph) /\ ~Empty(t[a.x])
@@ -236,6 +239,7 @@ Post(s, op, a) ==
     [] op = "view_set_T" -> [s EXCEPT !.st = PutTP(t, a.x, a.T, t[a.x].P)]
     [] op = "set_P" -> [s EXCEPT !.st = PutTP(t, a.x, t[a.x].T, a.P)]
     [] op = "flash_TP" -> [s EXCEPT !.st = PutTP(t, a.x, a.T, a.P)]
+    [] op = "pickle_obj" -> s
     [] op = "reassign" -> s
     [] op = "set_phases" ->
          IF Cardinality(Range(a.phs)) = 1 THEN
@@ -410,6 +414,7 @@ Judge(s, e) ==
   ELSE IF op \in {"copy", "pickle", "proxy", "flow_proxy", "link_with", "unlink", "copy_like"} /\ ~e.obs.behaves THEN "sharing.behaviour"
   \* the loaded stream has the chemicals (constants, reference phase, locked state) and the enthalpy of the one that was pickled
   ELSE IF op = "pickle" /\ ~e.obs.carried THEN "pickle.package_not_carried"
+  ELSE IF op = "pickle_obj" /\ ~e.obs.carried THEN "pickle.object_not_equivalent"
   ELSE "ok"
 
 ObsLegal(e) == TRUE
